@@ -284,6 +284,11 @@ class TxInfo:
                 except Exception:  # noqa: BLE001
                     mine = None
                 REF_STATS[1 if mine == self._cache[k] else 2] += 1
+                if mine != self._cache[k] and sighashlib.is_complete(script_code):
+                    REF_STATS[3] += 1
+                if mine != self._cache[k] and len(REF_DIFF) < 12:
+                    REF_DIFF.append({"script_code": hx(script_code)[:200], "hash_type": hash_type, "sigversion": sv, "input": self.idx,
+                                     "script_code_complete": sighashlib.is_complete(script_code), "pycoin": None if mine is None else "%064x" % mine})
         return self._cache[k]
 
     def check_sig(self, sig: bytes, pubkey: bytes, script_code: bytes, sv: str) -> bool:
@@ -311,8 +316,9 @@ class TxInfo:
 
 
 XCHECK: dict = {}
-REF_STATS = [0, 0, 0]   # digests computed by the reference; of a sample: pycoin's own digest equal / different (evidence only)
+REF_STATS = [0, 0, 0, 0]   # [3]: different although the script code decodes completely; digests computed by the reference; of a sample: pycoin's own digest equal / different (evidence only)
 REF_SAMPLE = [1]
+REF_DIFF: list = []
 XCHECK_DONE = [0, 0]  # answers cross-checked, of which true
 XCHECK_SAMPLE = [1]
 
